@@ -43,6 +43,7 @@ func main() {
 	out := flag.String("out", "", "result file")
 	maxViol := flag.Int("maxviol", 25, "stop after this many violations")
 	from := flag.Int("from", 0, "skip case indexes below this")
+	to := flag.Int("to", -1, "skip case indexes at or above this (-1 = none)")
 	meta := flag.Bool("meta", false, "print the property's metadata as JSON")
 	floor := flag.String("floor", "", "evaluate the coverage floor on a merged statistics file")
 	raceFilter := flag.Bool("racefilter", false, "classify the race detector logs given as arguments")
@@ -55,7 +56,12 @@ func main() {
 	if *meta {
 		m := map[string]interface{}{"id": pr.ID, "level": pr.Level, "race": pr.Race, "rule": pr.Rule,
 			"assumptions": pr.Assumptions, "num_cases": pr.NumCases(*tier), "serial": pr.Serial,
-			"exhaustive": pr.Exhaustive != nil && pr.Exhaustive(*tier)}
+			"exhaustive": pr.Exhaustive != nil && pr.Exhaustive(*tier), "race_from": func() int {
+				if pr.RaceFrom != nil {
+					return pr.RaceFrom(*tier)
+				}
+				return 0
+			}()}
 		b, _ := json.Marshal(m)
 		fmt.Println(string(b))
 		return
@@ -94,7 +100,7 @@ func main() {
 			if idx != *only {
 				continue
 			}
-		} else if idx%*nbatch != *batch || idx < *from {
+		} else if idx%*nbatch != *batch || idx < *from || (*to >= 0 && idx >= *to) {
 			continue
 		}
 		// the case descriptor reaches the log before the case runs
